@@ -1087,3 +1087,8 @@ mutant("M11s-retarget-copy-without-mark", ["C11", "C02"], "STORE-NOFUSE-1", (OPS
 RUTILS = "cubed/runtime/utils.py"
 mutant("M08b-batched-by-zip-grouper", ["C08", "C13", "C07"], "BATCH-COVER-1", (RUTILS, "    it = iter(iterable)\n    while batch := tuple(islice(it, n)):\n        yield batch\n", "    return zip(*[iter(iterable)] * n)\n"))
 benign("B08b-batched-explicit-loop", ["C08", "C13", "C07"], (RUTILS, "    it = iter(iterable)\n    while batch := tuple(islice(it, n)):\n        yield batch\n", "    it = iter(iterable)\n    while True:\n        batch = tuple(islice(it, n))\n        if not batch:\n            return\n        yield batch\n"))
+mutant("M14w-array-method-drops-min-mem", ["C14"], "RECHUNK-CHAIN-1", (ARRAY, "        return rechunk(self, chunks, min_mem=min_mem, allow_irregular=allow_irregular)\n", "        return rechunk(self, chunks, allow_irregular=allow_irregular)\n"))
+mutant("M14x-reported-source-is-copy-grid", ["C14"], "RECHUNK-CHAIN-1", (RECH, "        source_chunks = target_chunks\n    return RechunkPlan(copy_ops)", "        source_chunks = copy_chunks\n    return RechunkPlan(copy_ops)"))
+mutant("M14y-dict-request-filled-in-place", ["C14"], "RECHUNK-CHAIN-1", (OPS, "        chunks = {validate_axis(c, x.ndim): v for c, v in chunks.items()}\n        for i in range(x.ndim):", "        for i in range(x.ndim):"))
+benign("B14y-dict-request-copied-first", ["C14"], (OPS, "        chunks = {validate_axis(c, x.ndim): v for c, v in chunks.items()}\n        for i in range(x.ndim):", "        chunks = dict(chunks)\n        chunks = {validate_axis(c, x.ndim): v for c, v in chunks.items()}\n        for i in range(x.ndim):"))
+benign("B14w-array-method-forwards-by-kwargs-dict", ["C14"], (ARRAY, "        return rechunk(self, chunks, min_mem=min_mem, allow_irregular=allow_irregular)\n", "        options = dict(min_mem=min_mem, allow_irregular=allow_irregular)\n        return rechunk(self, chunks, **options)\n"))
